@@ -42,17 +42,7 @@ type ExprCondition struct {
 func baseOptions() []expr.Option {
 	// Add custom string function support (startsWith, endsWith, contains are built-in operators)
 	options := []expr.Option{
-		expr.Function("like_match", func(params ...any) (any, error) {
-			if len(params) != 2 {
-				return false, fmt.Errorf("like_match function requires 2 parameters")
-			}
-			text, ok1 := params[0].(string)
-			pattern, ok2 := params[1].(string)
-			if !ok1 || !ok2 {
-				return false, fmt.Errorf("like_match function requires string parameters")
-			}
-			return matchesLikePattern(text, pattern), nil
-		}),
+		expr.Function("like_match", likeMatch),
 		expr.Function("is_null", func(params ...any) (any, error) {
 			if len(params) != 1 {
 				return false, fmt.Errorf("is_null function requires 1 parameter")
@@ -69,6 +59,21 @@ func baseOptions() []expr.Option {
 	}
 	// 注入 StreamSQL 内置函数，使 WHERE/HAVING/OVER-WHEN 等条件可调用 to_seconds/now/abs 等
 	return append(options, functions.GetExprBridge().RegisterStreamSQLFunctionsToExpr()...)
+}
+
+// likeMatch implements like_match(text, pattern), the call LIKE patterns with
+// _ or an inner % are lowered to. A text operand that is not a string (NULL, a
+// missing column, ...) is an evaluation failure.
+func likeMatch(params ...any) (any, error) {
+	if len(params) != 2 {
+		return false, fmt.Errorf("like_match function requires 2 parameters")
+	}
+	text, ok1 := params[0].(string)
+	pattern, ok2 := params[1].(string)
+	if !ok1 || !ok2 {
+		return false, fmt.Errorf("like_match function requires string parameters")
+	}
+	return matchesLikePattern(text, pattern), nil
 }
 
 func NewExprCondition(expression string) (Condition, error) {
